@@ -459,7 +459,7 @@ pub fn run(ctx: &Ctx) -> i32 {
     stats.exhaustive_subspaces.insert("every plain storage byte written with an address hash and read back after all others (3 independent hashes)".into(), 3 * 2_114_280);
 
     // (3) histories of byte/word/long accesses through real MOV instructions
-    let nh: u32 = tier.pick(200_000, 4_000_000);
+    let nh: u32 = tier.pick(200_000, 16_000_000);
     let nshards = 32usize;
     let hstats = par_shards(ctx, nshards, |shard| {
         let w = Worker::new(ctx);
